@@ -286,6 +286,22 @@ OBLIGATIONS.append(M("C08", "c08_path_components", {"q": "bip32_path", "max_digi
                      "every component of 1..10 decimal digits (all values up to 9999999999, so both sides of 2^31 and of u32 overflow) with no suffix or one of ' h H; ASCII only", cost=1,
                      stubs=("E2 string models for byte strings of known length: str::ends_with(char), to_lowercase (ASCII), trim_end_matches(char), parse::<u32> (optional '+', digits, overflow)",)))
 
+# ---------------------------------------------------------------- C05 (signing / verification glue only)
+EXPLANATION["C05"] = ("Partial: the SIGNING GLUE only. Scalar reduction mod n, RFC 6979 nonce generation, the ECDSA sign and verify primitives (including low-S normalisation, which k256's "
+                      "try_sign_prehashed performs), recovery ids and Diffie-Hellman are uninterpreted functions - that signatures verify, are low-S, equal an independent RFC 6979 implementation and that "
+                      "ECDH is symmetric is therefore NOT decided by the solver (it is spot-checked natively on two fixed keys, outside the claim). E2 executes the crate's own code from MIR and decides, "
+                      "for all keys, messages and both hash choices: every signing entry point (deterministic nonce in both byte-order modes, randomised nonce in both modes, caller nonce, pre-hashed digest) hands "
+                      "the primitive the signer's scalar and the BIG-ENDIAN reduction of exactly SHA-256 / double-SHA-256 of the message (resp. of the digest) - the value the verifier uses; deterministic nonces come "
+                      "from RFC 6979 over the crate's SHA-256 engine keyed with the signer's scalar, fed the (byte-reversed, in that mode) digest, with no extra entropy; the caller's nonce is used unchanged; the "
+                      "returned Signature is the primitive's output with recovery info (y_odd, x_reduced, key-compression flag) from its recovery id; verify_digest / verify_hashbuf accept exactly when the "
+                      "primitive holds for (key bytes, that reduction, signature); derive_shared_key returns the primitive's output for (own scalar, peer key bytes).")
+OBLIGATIONS.append(M("C05", "c05_signing_glue", {"q": "ecdsa_glue"}, ["ECDSA::{sign_with_deterministic_k_impl,sign_with_random_k_impl,sign_with_k_impl,sign_digest_with_deterministic_k_impl}", "ECDSA::{sign_preimage_deterministic_k,sign_preimage_random_k,sign_digest_bytes_deterministic_k}",
+                                                                    "ECDSA::{verify_digest_impl,verify_hashbuf_impl}", "ECDH::derive_shared_key_impl", "get_hash_digest", "Sha256r adapter (update/finalize/reverse)"],
+                     "all 256-bit private scalars and nonces, messages of symbolic length (64-bit), all 32-byte digests, both SigningHash values, both reverse_k modes, both key-compression flags; public keys of symbolic length <= 65; arbitrary signature values", cost=1,
+                     stubs=("E2 signing models: Scalar::from_{be,le}_bytes_reduced / from_uint_reduced(U256::from_{le,be}_slice) -> REDUCE_MOD_N of the big-endian value; rfc6979_generate_k::<_, D> -> RFC6979_K_<D>(x, h, entropy); OsRng::fill_bytes -> fresh bytes; "
+                            "SignPrimitive::try_sign_prehashed -> (signature, recovery id) as functions of (d, k, z) or an error; recoverable::Signature::new / recovery_id / From, RecoveryId::{is_y_odd,is_x_reduced} -> functions of that signature; "
+                            "EncodedPoint::from_bytes, VerifyingKey::from_encoded_point, AffinePoint::from_encoded_point -> validity predicates; DigestVerifier::verify_digest / VerifyPrimitive::verify_prehashed -> ECDSA_VERIFY(key bytes, z, signature); diffie_hellman -> ECDH_SHARED_X; hash engines as in C13",)))
+
 
 def for_property(pid):
     return [dict(o) for o in OBLIGATIONS if o["property"] == pid]
